@@ -202,6 +202,36 @@ def t1(ctx):
     # patristic_distance(tree, t1, t2, is_bipartitions_updated) hands the caller's flag to Tree.mrca unchanged
     from dpvc import forwarding
     forwarding.obligations(ctx, "is_bipartitions_updated", lambda mn: mn == "dendropy.calculate.treemeasure", "flag-reaches", exact=True)
+    # the distance matrix: which distance (edge counts or summed lengths) and whether it is divided by the tree size is the caller's choice at every
+    # level -- each function hands both flags to the one it delegates to
+    for flag in ("is_weighted_edge_distances", "is_normalize_by_tree_size"):
+        forwarding.obligations(ctx, flag, lambda mn: mn == "dendropy.calculate.phylogeneticdistance", "option-reaches[%s]" % flag, exact=True,
+                               native=native_distance_options_ignored)
+
+
+def native_distance_options_ignored(modname=None, qual=None):
+    """summaries of the distance matrix under the four settings of (weighted, normalised) against the same summary computed from distance()"""
+    import itertools
+    import dendropy
+    t = dendropy.Tree.get(data="((A:1,B:2):1.5,(C:0.5,(D:2,E:3):1):2);", schema="newick")
+    pdm = t.phylogenetic_distance_matrix()
+    taxa = list(t.taxon_namespace)
+    for w, nrm in itertools.product((True, False), repeat=2):
+        pairs = [pdm.distance(a, b, is_weighted_edge_distances=w, is_normalize_by_tree_size=nrm) for a, b in itertools.combinations(taxa, 2)]
+        want_mpd = sum(pairs) / len(pairs)
+        got = pdm.mean_pairwise_distance(is_weighted_edge_distances=w, is_normalize_by_tree_size=nrm)
+        if abs(got - want_mpd) > 1e-9:
+            return dict(key="mpd|%r|%r" % (w, nrm), outcome="mean_pairwise_distance(is_weighted_edge_distances=%r, is_normalize_by_tree_size=%r) = %r; "
+                                                             "the mean of distance() over all pairs under the same settings is %r" % (w, nrm, got, want_mpd))
+        nn = []
+        for a in taxa:
+            nn.append(min(pdm.distance(a, b, is_weighted_edge_distances=w, is_normalize_by_tree_size=nrm) for b in taxa if b is not a))
+        want_mntd = sum(nn) / len(nn)
+        got = pdm.mean_nearest_taxon_distance(is_weighted_edge_distances=w, is_normalize_by_tree_size=nrm)
+        if abs(got - want_mntd) > 1e-9:
+            return dict(key="mntd|%r|%r" % (w, nrm), outcome="mean_nearest_taxon_distance(is_weighted_edge_distances=%r, is_normalize_by_tree_size=%r) = %r; "
+                                                              "from distance() under the same settings %r" % (w, nrm, got, want_mntd))
+    return None
 
 
 def replay(ctx, rec):
